@@ -90,6 +90,7 @@ func (e *Encoder) Bytes() ([]byte, error) {
 	if e.mode == modeInitial {
 		e.appendDefaultMetadata()
 	}
+	e.flushDrawOps()
 	return []byte(e.buf), nil
 }
 
